@@ -532,3 +532,7 @@ func TestC07Total(t *testing.T) {
 		Rule: "spec documents (Go / JSON / YAML, structure-aware mutations: null nodes, branchings, branches, actions; wrong types; unknown targets, interpreters, syntaxes, branching types) x states (nil bindings, permanent keys, unknown node) x messages (incl. null) x control (nil, limit <= 0, breakpoints) x failing ECMAScript and native behaviours (throw, timeout, null, scalars, unserialisable emission, error with partial result) under a panic trap and watchdog; non-trivial = at least two failure dimensions combined"},
 		genTotal, checkTotal)
 }
+
+func FuzzC07Total(f *testing.F) {
+	ev.Fuzz(f, ev.Opts{Property: "C07", Name: "total", Journal: true}, genTotal, checkTotal)
+}
